@@ -269,6 +269,10 @@ func (ws *WatchingSource) Watch(
 // content-changes with an HMAC-SHA256 before reporting anything upstream.
 const k8sIntermediateSymlinkDir = "..dir"
 
+// k8sDataSymlinkDir is the name Kubernetes' AtomicWriter actually gives the
+// intermediate symlink; its atomic rename is the moment a configmap changes.
+const k8sDataSymlinkDir = "..data"
+
 func (ws *WatchingSource) watchLoop(
 	ctx context.Context,
 	t *dials.Type,
@@ -302,6 +306,7 @@ func (ws *WatchingSource) watchLoop(
 	eventNumber := 0
 	cleanedPathDir := filepath.Dir(cleanedPath)
 	cleanedPathDirPlusDir := filepath.Join(cleanedPathDir, k8sIntermediateSymlinkDir)
+	cleanedPathDirPlusData := filepath.Join(cleanedPathDir, k8sDataSymlinkDir)
 MAINLOOP:
 	for {
 		select {
@@ -319,7 +324,7 @@ MAINLOOP:
 			// resolved.
 			switch ev.Name {
 			case resolvedCfgPath, cleanedPath, cleanedPathDir,
-				cleanedPathDirPlusDir, filepath.Dir(resolvedCfgPath):
+				cleanedPathDirPlusDir, cleanedPathDirPlusData, filepath.Dir(resolvedCfgPath):
 			default:
 				continue MAINLOOP
 			}
